@@ -2,6 +2,8 @@
 
 from __future__ import annotations
 
+import re
+
 from hypothesis import strategies as st
 
 from vf import common, gen, model, xform
@@ -37,9 +39,15 @@ def strategy(tier):
     return _cases()
 
 
+INSTANCE_EXPR = re.compile(r"""instance\(\s*("[^"]*"|'[^']*')\s*\)/""")
+
+
 def same_text(expected: str, actual: str) -> bool:
     if expected == actual:
         return True
+    if INSTANCE_EXPR.search(expected) and "${" not in expected:
+        # a complete instance('id')/... expression is shown through an <output/> like a reference: mixed content may gain a boundary space
+        return actual in (f" {expected} ", f" {expected}", f"{expected} ")
     if "${" in expected:
         for cand in (actual, actual[1:-1] if actual[:1] == " " and actual[-1:] == " " else actual,
                      actual[1:] if actual[:1] == " " else actual, actual[:-1] if actual[-1:] == " " else actual):
